@@ -63,3 +63,59 @@ def resolve(x, table):
     if isinstance(x, list):
         return [resolve(y, table) for y in x]
     return x
+
+
+# ---- C12 / C19: functions of a record, cell converters, row mappers, row generators ---------------------------
+def _raise(tag):
+    raise UserError(tag)
+
+
+ROWFN = {
+    0: lambda rec: rec[0],
+    1: lambda rec: len(rec),
+    2: lambda rec: rec['v'],
+    3: lambda rec: _raise(3),
+}
+
+CONV = {
+    0: 'upper',
+    1: int,
+    2: lambda v: v * 2,
+    3: lambda v: _raise(3) if v in (2, 'x') else ('ok', v),
+    5: lambda v: v,
+    6: lambda v, row: (v, len(row)),
+}
+
+
+def _rowmapper0(row):
+    return [row[0], row[2]]
+
+
+def _rowmapper1(row):
+    if row[0] in (2, 'x'):
+        raise UserError(1)
+    return [row[0], len(row)]
+
+
+ROWMAPPER = {0: _rowmapper0, 1: _rowmapper1}
+
+
+def _rowgen0(row):
+    yield [row[0], 'a', row[1]]
+    if row[0] in (2, 'x'):
+        raise UserError(2)
+    yield [row[0], 'v', row[2]]
+
+
+ROWGEN = {0: _rowgen0}
+
+
+def conv_of(spec):
+    """('fn', id) | ('dict', pairs) | None  ->  converter accepted by petl.convert"""
+    if spec is None:
+        return None
+    if spec[0] == 'fn':
+        return CONV[spec[1]]
+    if spec[0] == 'dict':
+        return dict(spec[1])
+    raise ValueError(spec)
